@@ -582,6 +582,31 @@ impl<'tcx> Cx<'tcx> {
             dbg.join(","),
             blocks.join(",")
         );
+        // promoted constants of this body (e.g. `&(1..=64)`): small bodies that build the referenced value
+        let promoted = tcx.promoted_mir(did);
+        for (pi, pbody) in promoted.iter_enumerated() {
+            if pbody.basic_blocks.len() > 8 {
+                continue;
+            }
+            let mut plocals = Vec::new();
+            for d in pbody.local_decls.iter() {
+                plocals.push(self.ty(d.ty));
+            }
+            let pblocks: Vec<String> = pbody
+                .basic_blocks
+                .iter()
+                .map(|bb| self.block(pbody, bb, env))
+                .collect();
+            let _ = writeln!(
+                out,
+                "{{\"rec\":\"promoted\",\"path\":{},\"def\":{},\"index\":{},\"locals\":[{}],\"blocks\":[{}]}}",
+                esc(&format!("{}::promoted[{}]", self.path(did), pi.as_usize())),
+                esc(&self.path(did)),
+                pi.as_usize(),
+                plocals.join(","),
+                pblocks.join(",")
+            );
+        }
     }
 
     fn adts_and_impls(&self, out: &mut String) {
